@@ -276,6 +276,91 @@ def provenance_and_before_start(ck, ctx):
             e = CB.arg(bb, 0)
             okd = any(c[1].endswith("Path::parent") for c in calls_in(e)) and any(c[1] == "graph::File::path" for c in calls_in(e)) and RL.try_of_call(ctx, cb, bb) is not None
     ck.ob("before-start", "create_parent_dirs", okd, "create_parent_dirs creates file(out).path().parent() for its ids and propagates errors", span=cb.loc, fn=cb.nname)
+    dirs_complete(ck, ctx, cb)
+
+
+EQ_ONLY = ("as std::cmp::PartialEq>::eq", "std::cmp::impls::eq")
+
+
+def dirs_complete(ck, ctx, cb):
+    """every output with a parent directory gets create_dir_all(parent) unless the *same* directory was already created in this call:
+    the only way round create_dir_all inside the loop is the true edge of `dirs.iter().any(|p| p == parent)` (equality, nothing weaker),
+    and `dirs` only ever receives a parent whose create_dir_all succeeded"""
+    F = ctx.F
+    CB = ctx.res(cb)
+    cfg = ctx.cfg(cb)
+    creates = [(bb, t) for bb, t in cb.calls() if callee_of(t) == "std::fs::create_dir_all"]
+    if len(creates) != 1:
+        ck.ob("before-start", "dirs-complete", False, "expected one create_dir_all site in create_parent_dirs (%d)" % len(creates), span=cb.loc, fn=cb.nname)
+        return
+    cbb, ct = creates[0]
+    parent = strip(CB.arg(cbb, 0))
+    hdr = cfg.enclosing_loop_header(cbb)
+    ne, se = C.option_edges(ctx, cb, lambda e: e[0] == "call" and e[1].endswith("Path::parent"))
+    starts = [tt for (x, lab) in se for tt in cfg.edge_targets(x, lab)]
+    # recognised skip predicates
+    skip_edges = set()
+    membership_inserts = set()
+    det = []
+    for x, st, e in Q.switches(ctx, cb):
+        neg = False
+        ee = e
+        while ee[0] == "un" and ee[1] == "Not":
+            ee, neg = ee[2], not neg
+        ee = strip(ee)
+        tl, fl = Q.bool_edges(st)
+        if ee[0] == "call" and ee[1].endswith(("::contains", "HashSet::insert", "BTreeSet::insert")) and len(ee[2]) == 2 and ee[1].startswith(("std::collections::", "std::slice::", "std::vec::", "core::slice::")):
+            # set/slice membership of the same parent is an equality test too
+            a = strip(ee[2][1])
+            if a == parent or parent in list(walk(a)):
+                is_ins = ee[1].endswith("insert")
+                skip_edges.add((x, (tl if neg else fl) if is_ins else (fl if neg else tl)))
+                if is_ins:
+                    membership_inserts.add(ee[3])
+                det.append("%s@bb%d of the same parent" % (ee[1], ee[3]))
+            continue
+        if not (ee[0] == "call" and ee[1].endswith("Iterator>::any")):
+            continue
+        true_lab = fl if neg else tl
+        # closure and its captures
+        any_bb = ee[3]
+        clo = None
+        cap_same = False
+        for s_ in cb.blocks[any_bb]["stmts"]:
+            if s_["k"] == "assign" and s_["rv"]["k"] == "agg" and s_["rv"]["ak"] == "closure":
+                clo = F.body(norm(s_["rv"]["name"]))
+                caps = [strip(CB.agg_op(any_bb, s_, k)) for k in range(len(s_["rv"]["ops"]))]
+                cap_same = any(parent in list(walk(c)) or c == parent for c in caps)
+        eq_only = False
+        if clo is not None:
+            CR = ctx.res(clo)
+            ccfg = ctx.cfg(clo)
+            rets = ccfg.returns()
+            calls = [(bb, t) for bb, t in clo.calls()]
+            # the closure is exactly one equality between its element and the captured parent
+            if len(calls) == 1 and callee_of(calls[0][1]).endswith(EQ_ONLY) and len(rets) == 1:
+                rv = strip(CR.local(0, CR.term_at(rets[0])))
+                a0, a1 = (list(walk(CR.arg(calls[0][0], i))) for i in (0, 1))
+                elem = any(y[0] == "param" and y[1] == 2 for y in a0 + a1)
+                capt = any(y[0] == "param" and y[1] == 1 for y in a0 + a1)
+                eq_only = rv[0] == "call" and rv[3] == calls[0][0] and elem and capt
+        recv = strip(ee[2][0]) if ee[2] else ()
+        det.append("any@bb%d closure=%s eq_only=%s captures_parent=%s" % (any_bb, clo.nname if clo else None, eq_only, cap_same))
+        if eq_only and cap_same:
+            skip_edges.add((x, true_lab))
+    r = cfg.reach_avoid(starts, avoid_blocks=[cbb], avoid_edges=skip_edges)
+    ok = bool(starts) and hdr is not None and hdr not in r and not any(x in r for x in cfg.returns())
+    ck.ob("before-start", "dirs-complete|no-bypass", ok, "from `Some(parent)` the next iteration or the return is reached only through create_dir_all(parent) or the exact-equality already-created test (%s)" % det, span=ct["loc"], fn=cb.nname)
+    # what goes into the remembered list
+    tr = RL.try_of_call(ctx, cb, cbb)
+    pushes = [(bb, t) for bb, t in cb.calls() if callee_of(t).endswith("Vec::push") or callee_of(t).endswith("::insert")]
+    okp = tr is not None
+    for bb, t in pushes:
+        if bb in membership_inserts:
+            continue
+        v = strip(CB.arg(bb, 1))
+        okp = okp and v == parent and Q.gated(cfg, bb, {(tr[0], tr[1])}, repeat=True)[0]
+    ck.ob("before-start", "dirs-complete|remembered-only-after-created", okp, "the already-created list receives only the parent whose create_dir_all just succeeded (%d push sites)" % len(pushes), span=cb.loc, fn=cb.nname)
 
 
 def print_once(ck, ctx):
